@@ -826,6 +826,13 @@ def r9_empty_cluster_rejected(ctx):
             lens = [a for a in atoms_ if a[0] == 'cmp' and all(any(x[0] == 'call' and x[1].endswith('::len') for x in walk(side)) for side in (a[2], a[3]))]
             ctx.check(any(a[1] == 'eq' for a in lens), 'type-argument-arity', 'type arguments are accepted only if their number equals the number of parameters', f.where_path(path), [show_atom(a)[:120] for a in lens])
     ctx.floor('successful paths of transform_submodule', n, 2)
+    # a type argument must be a concrete, known type: the translation of a name through the surrounding module's generic bindings is for
+    # argument-less types only (case a/b) — applied to an argument it would let a binding of the surrounding module pass as concrete
+    tr = [s for s in f.calls() if s.name.split('::')[-1] == 'inner_ty_to_outer_ty']
+    for s in tr:
+        g_at = [a for _, a in f.guard_atoms(s.b)]
+        argless = any(a[0] == 'bool' and a[2] is True and a[1][0] == 'call' and a[1][1].endswith('::is_empty') and any(x[0] == 'field' and x[2] == 'args' for x in walk(a[1])) for a in g_at)
+        ctx.check(argless, 'type-argument-concrete', 'generic bindings are resolved for argument-less types only; a type argument is looked up as written', s.where())
 
 
 def run(ctx):
